@@ -37,7 +37,7 @@ Tokens      == Digits \cup Letters \cup NumToks \cup Words \cup {Esc} \cup Punct
                  \cup {"/", " ", ":"} \cup Huge
 
 ByteLen(t) == CASE t \in {"1.5", "1e3", "NaN", "Inf", "0.0", "low"} -> 3
-                [] t \in {"-2", "x1", Esc}                            -> 2
+                [] t \in {"-2", "x1", Esc, "U2"}                      -> 2      \* "U2": one character of two bytes (UTF-8), e.g. e-acute
                 [] t \in {"0.25", "-Inf", "-0.5", "info", "host"}     -> 4
                 [] t \in {"1e999", "error"}                           -> 5
                 [] t = "normal"                                       -> 6
@@ -62,7 +62,7 @@ FilterSeq(ss, P(_)) == SelectSeq(ss, P)
 \* ---- names: '/' -> '-', blank -> '_', bytes outside [A-Za-z0-9._-] removed
 NameNorm(t) == IF t = "/" THEN <<"-">>
                ELSE IF t = " " THEN <<"_">>
-               ELSE IF t \in Removed THEN <<>>
+               ELSE IF t \in Removed \/ t = "U2" THEN <<>>
                ELSE IF t = Esc THEN <<"n">>
                ELSE <<t>>
 RECURSIVE Norm(_)
